@@ -376,7 +376,8 @@ DIRECTED = [
 # places into SQL clauses - the splitter, the DISTINCT / DISTINCT ON / set-operation rewrites and the clause assembly have an arm
 # (and `unreachable!`s) per combination, and several arms are dialect dependent; compiled for all 12 dialects
 CLAUSE_FORMS = ["take 3", "take 2..4", "sort a", "sort {-b}", "filter a > 1", "derive x = a + 1", "select {a, b}", "group g (take 1)",
-                "group g (sort b | take 1)", "group {a, b} (take 1)", "group g (sort b | take 2)", "append u", "remove u", "intersect u",
+                "group g (sort b | take 1)", "group {a, b} (take 1)", "group g (sort b | take 2)", "append (from u | select {a, b, g})",
+                "remove (from u | select {a, b, g})", "intersect (from u | select {a, b, g})",
                 "aggregate {n = count this}", "group g (aggregate {n = count this})", "join u (==a)",
                 "derive r = row_number this", "group g (derive r = rank b)", "select {a, g}"]
 
@@ -386,7 +387,13 @@ def clause_order_programs():
     for x in CLAUSE_FORMS:
         for y in CLAUSE_FORMS:
             out.append(f"from t | select {{a, b, g}} | {x} | {y}")
+    # the same set operations between relations whose columns are not known (no select in front)
+    for x in ["append u", "remove u", "intersect u"]:
+        for y in CLAUSE_FORMS:
+            out.append(f"from t | {x} | {y}")
+            out.append(f"from t | {y} | {x}")
     hot = [f for f in CLAUSE_FORMS if f.startswith(("append", "remove", "intersect", "group g (take", "group g (sort", "group {a, b}", "take"))]
+    # (the triples come last: `run` keeps all pairs and samples the triples in the quick tier)
     for x in hot:
         for y in hot:
             for z in CLAUSE_FORMS:
@@ -963,11 +970,12 @@ def run(ctx):
     ex.run(reqs, "i-directed", timeout=300)
 
     cop = clause_order_programs()
+    n_all = len(CLAUSE_FORMS) ** 2 + 6 * len(CLAUSE_FORMS)      # pairs: every dialect; triples: sampled in quick, three dialects each
     if not thorough:
-        cop = cop[:len(CLAUSE_FORMS) ** 2] + random.Random(1212).sample(cop[len(CLAUSE_FORMS) ** 2:], 700)
+        cop = cop[:n_all] + random.Random(1212).sample(cop[n_all:], 700)
     reqs = []
     for k, src in enumerate(cop):
-        for d in (DIALECTS if (thorough or k < len(CLAUSE_FORMS) ** 2) else [DIALECTS[k % len(DIALECTS)], "postgres", "mssql"]):
+        for d in (DIALECTS if (thorough or k < n_all) else [DIALECTS[k % len(DIALECTS)], "postgres", "mssql"]):
             reqs += src_reqs(src, "clause-order", ops=[("compile", "prql")], target="sql." + d)
     ctx.coverage_extra["clause_order_programs"] = {"programs": len(cop), "requests": len(reqs)}
     ex.run(reqs, "i-clause-order", timeout=600)
